@@ -208,6 +208,10 @@ func init() {
 				same = c19Same(c19List(w[3]), n)
 			}
 			return "R " + vB2s(res) + " " + same
+		case "D": // D <old> <new>: stringSliceDelta, then the two argument slices as the call left them
+			o, n := c19List(w[1]), c19List(w[2])
+			added, removed, inter := stringSliceDelta(o, n)
+			return "D " + c19Fmt(added, ",") + " " + c19Fmt(removed, ",") + " " + c19Fmt(inter, ",") + " " + c19Fmt(o, ",") + " " + c19Fmt(n, ",")
 		case "G": // G <masked namespaces> <own tags> <search terms>: the gate of topic.go:2434-2442
 			restr, _, _ := stringSliceDelta(c19List(w[2]), filterRestrictedTags(c19List(w[3]), c19NS(w[1])))
 			return "G " + vB2s(len(restr) == 0)
